@@ -39,7 +39,7 @@ func TestC02(t *testing.T) {
 	dir := evid.TempDir(t)
 	nHist := r.N(3000, 60000)
 	cfg := ops.GenCfg{
-		Names:  []string{"a", "a", "a", "b", "b", "c/d", "", "_internal/x", "c/../a", "b/", "c//d", "./a", "x", "x", "_internal/_internal/x", " a", "a ", "b\n", "\ta"},
+		Names:  []string{"a", "a", "a", "b", "b", "c/d", "", "_internal/x", "c/../a", "b/", "c//d", "./a", "x", "x", "_internal/_internal/x", " a", "a ", "b\n", "\ta", "base64:YQ==", "base64:Yg", "hex:61", "a%2f", "json:\"a\""},
 		Values: [][]byte{[]byte(""), []byte("one"), []byte("two"), []byte("one"), {0, 255, '\n'}},
 		Weights: map[ops.Kind]int{ops.List: 1, ops.Info: 2, ops.Get: 2, ops.GetVer: 3, ops.GetCond: 1,
 			ops.Put: 10, ops.Act: 5, ops.DelVer: 7, ops.Delete: 1},
@@ -271,8 +271,11 @@ func TestC02(t *testing.T) {
 		for i := 0; i < r.N(3, 20); i++ {
 			listsDuringChanges(t, r, dir, i)
 		}
+		for i := 0; i < r.N(4, 30); i++ {
+			activateVersusDeleteVersion(t, r, dir, i)
+		}
 	}
-	r.Require("lists_during_changes", "overlapping_identical_puts", "http_history_steps", "overlapping_puts", "histories", "restarts_inside_histories", "calls_failed_by_io_error", "calls_failed_by_audit_error", "failed_calls", "shape_delete_newest_version", "shape_put_after_newest_deleted", "shape_put_empty_after_newest_deleted",
+	r.Require("activate_versus_delete_version_rounds", "lists_during_changes", "overlapping_identical_puts", "http_history_steps", "overlapping_puts", "histories", "restarts_inside_histories", "calls_failed_by_io_error", "calls_failed_by_audit_error", "failed_calls", "shape_delete_newest_version", "shape_put_after_newest_deleted", "shape_put_empty_after_newest_deleted",
 		"shape_put_duplicate_of_newest", "shape_put_duplicate_of_older", "shape_activate_backwards", "shape_recreate_after_delete")
 	r.Rule("seeded random histories of 30-60 operations (all 9 operations, weighted towards put/activate/delete-version) over 3 ordinary names plus the empty and a reserved name, values from a 4-element pool incl. the empty value; oracle after every step. A case is distinct by (operation, precondition class of its name/version argument, model outcome class); named shapes are counted in 'observed'")
 }
@@ -558,4 +561,73 @@ func listsDuringChanges(t *testing.T, r *evid.Run, dir string, idx int) {
 	close(stop)
 	<-done
 	r.Distinct("lists during changes")
+}
+
+// activateVersusDeleteVersion: "activate 2" and "delete-version 2" of one secret arrive together (other callers
+// keep the database busy with puts elsewhere). In either order exactly one of the two succeeds, and whichever
+// it is, the active version exists afterwards.
+func activateVersusDeleteVersion(t *testing.T, r *evid.Run, dir string, idx int) {
+	r.Eval(1)
+	d, err := realdb.Open(filepath.Join(dir, fmt.Sprintf("avd%d.db", idx)), realdb.DummyKey("c02avd"))
+	if err != nil {
+		t.Error(err)
+		return
+	}
+	su := realdb.Super()
+	var stop atomic.Bool
+	var bg sync.WaitGroup
+	for w := 0; w < 3; w++ {
+		bg.Add(1)
+		go func(w int) {
+			defer bg.Done()
+			for n := 0; !stop.Load(); n++ {
+				d.Put(su, fmt.Sprintf("busy/%d", w), []byte(fmt.Sprint("v", n)))
+			}
+		}(w)
+	}
+	defer func() { stop.Store(true); bg.Wait() }()
+	for round, n := 0, r.N(60, 600); round < n; round++ {
+		name := fmt.Sprintf("s/%d", round)
+		d.Put(su, name, []byte("one"))
+		d.Put(su, name, []byte("two"))
+		var gate atomic.Bool
+		var wg sync.WaitGroup
+		var aerr, derr error
+		wg.Add(2)
+		go func() {
+			defer wg.Done()
+			for !gate.Load() {
+			}
+			aerr = d.Activate(su, name, 2)
+		}()
+		go func() {
+			defer wg.Done()
+			for !gate.Load() {
+			}
+			if round%2 == 0 {
+				runtime.Gosched()
+			}
+			derr = d.DeleteVersion(su, name, 2)
+		}()
+		gate.Store(true)
+		wg.Wait()
+		r.Count("activate_versus_delete_version_rounds", 1)
+		in, ierr := d.Info(su, name)
+		if ierr != nil {
+			r.Violation("state-inconsistent", idx, fmt.Sprintf("case %d round %d: Info after activate 2 / delete-version 2: %v", idx, round, ierr), nil)
+			return
+		}
+		hasActive := false
+		for _, v := range in.Versions {
+			if v == in.ActiveVersion {
+				hasActive = true
+			}
+		}
+		_, gerr := d.Get(su, name)
+		if !hasActive || gerr != nil || (aerr == nil) == (derr == nil) {
+			r.Violation("state-inconsistent", idx, fmt.Sprintf("case %d round %d: activate 2 returned %v and delete-version 2 returned %v at about the same time; afterwards the secret has versions %v, active %d, and Get says %v. In either order of the two calls exactly one succeeds and the active version exists", idx, round, aerr, derr, in.Versions, in.ActiveVersion, gerr), nil)
+			return
+		}
+	}
+	r.Distinct("activate versus delete-version")
 }
